@@ -5,6 +5,7 @@
 mod build;
 mod codes;
 mod fibex;
+mod filtercfg;
 mod gen;
 mod proj;
 mod reader;
@@ -103,6 +104,7 @@ fn main() {
                 "stats" => stats::record(mode, seed, n, &mut out),
                 "fibex" => fibex::record(mode, seed, n, &mut out, &out_path),
                 "codes" => codes::record(mode, seed, n, &mut out, arg(&args, "--shard").map(|s| s.parse().unwrap()).unwrap_or(0), arg(&args, "--of").map(|s| s.parse().unwrap()).unwrap_or(1)),
+                "filtercfg" => filtercfg::record(mode, seed, n, &mut out, &format!("{}.scratch.json", out_path)),
                 _ => { eprintln!("unknown suite {}", suite); std::process::exit(2) }
             }
             out.finish(&out_path, json!({}));
@@ -126,6 +128,7 @@ fn main() {
                     "reader" => reader::replay(mode, cases, out),
                     "stats" => stats::replay(mode, cases, out),
                     "fibex" => fibex::replay(mode, cases, out, &out_path),
+                    "filtercfg" => filtercfg::replay(mode, cases, out, &format!("{}.scratch.json", out_path)),
                     _ => { eprintln!("unknown suite {}", suite); std::process::exit(2) }
                 }
                 cases.clear();
@@ -172,6 +175,7 @@ fn main() {
                 "stats" => stats::rerun(&ev),
                 "fibex" => fibex::rerun(&ev, &out_path),
                 "codes" => codes::rerun(&ev),
+                "filtercfg" => filtercfg::rerun(&ev, &format!("{}.scratch.json", out_path)),
                 _ => { eprintln!("unknown suite {}", suite); std::process::exit(2) }
             };
             out.emit(e, true);
